@@ -92,7 +92,9 @@ func jsonVariants(data []byte, otherPid int) []jsonVariant {
 				out = append(out, jsonVariant{name: "json-array-element:" + repl, data: bz})
 			}
 		}
-		out = append(out, jsonVariant{name: "json-top:null", data: []byte("null")}, jsonVariant{name: "json-top:object", data: []byte("{}")})
+		out = append(out, jsonVariant{name: "json-top:null", data: []byte("null")}, jsonVariant{name: "json-top:object", data: []byte("{}")},
+			// a list with nothing in it, and one whose only element says nothing
+			jsonVariant{name: "json-top:empty-array", data: []byte("[]")}, jsonVariant{name: "json-top:array-of-empty-object", data: []byte("[{}]")})
 		return out
 	}
 	fs, ok := orderedFields(data)
